@@ -9,7 +9,7 @@ import math
 import random
 
 from harness import gen
-from harness.common import Result, Violation, compare, impl, quiet, run_driver, tempdir
+from harness.common import Result, Violation, compare, impl, quiet, run_driver, tempdir, worker_copy
 
 TUNER_KEYS = ("tuner/epochs", "tuner/initial_epoch", "tuner/bracket", "tuner/round", "tuner/trial_id")
 
@@ -153,7 +153,7 @@ def scenario(sseed, res, direction=None, cfg=None):
                 tags["end-" + oc] += 1
                 lines.append(dict(suite="hyperband", op="end", id=int(t.trial_id), status=t.status))
                 try:
-                    quiet(o.end_trial, t)
+                    quiet(o.end_trial, worker_copy(R, t))
                     expect.append("ok | " + state_str(o))
                 except RuntimeError as e:
                     if "consecutive" not in str(e):
